@@ -180,8 +180,8 @@ Proof.
   rewrite IH, Hv. destruct (cyc_last k r); destruct (N.eqb_spec k' k); reflexivity.
 Qed.
 
-Lemma scalar_kind x : (match x with KHist _ => False | _ => True end) -> forall v, vecof x v = [v].
-Proof. destruct x; intros H v; try reflexivity. contradiction. Qed.
+Lemma scalar_kind x : (match x with KHist _ | KExpo _ => False | _ => True end) -> forall v, vecof x v = [v].
+Proof. destruct x; intros H v; try reflexivity; contradiction. Qed.
 
 (** clause 3 *)
 Lemma async_cum x i t0 tm h : class_of x = CAsyncSum ->
@@ -370,4 +370,28 @@ Proof.
     rewrite (IH n p); [|lia| |exact Ep].
     + cbn [prev_total]. rewrite Ep. lia.
     + intros j Hj. apply Hall. lia.
+Qed.
+
+Lemma gauge_last : forall x i h t0 t0' tm tm',
+  (class_of x = CSyncGauge ->
+     GaugeCycle (cycles_sync i h []) (map s_points (stream x i Delta t0 tm h)) /\
+     GaugeSoFar (cycles_sync i h []) (map s_points (stream x i Cumulative t0' tm' h))) /\
+  (class_of x = CAsyncGauge ->
+     GaugeCycle (cycles_async i h []) (map s_points (stream x i Delta t0 tm h)) /\
+     GaugeCycle (cycles_async i h []) (map s_points (stream x i Cumulative t0' tm' h))).
+Proof.
+  intros. split; intros Hx.
+  - split; [|now apply gauge_sofar].
+    replace (cycles_sync i h []) with (cycles x i h) by (destruct x; try discriminate; reflexivity).
+    apply gauge_cycle. right. now split.
+  - replace (cycles_async i h []) with (cycles x i h) by (destruct x; try discriminate; reflexivity).
+    split; apply gauge_cycle; now left.
+Qed.
+
+Lemma points_canonical : forall x i t t0 tm h,
+  AllSorted (stream x i t t0 tm h) /\
+  length (stream x i t t0 tm h) = length (filter (fun o => match o with Collect _ => true | _ => false end) h).
+Proof.
+  intros. split; [apply all_sorted|]. rewrite stream_length. unfold cycles.
+  destruct (is_async x); [apply cycles_async_length | apply cycles_sync_length].
 Qed.
